@@ -117,7 +117,8 @@ theorem removeRoot_emb (nn : NNet) (w : WFm nn) (x : Nat) (hx : x < nn.net.nodes
     WFm (delNode { nn with net := net' } x) ∧ ∃ r, Emb nn (delNode { nn with net := net' } x) r ∧
       (∀ j, j < nn.net.nodes.size → j ≠ x → ∃ j', j' < (delNode { nn with net := net' } x).net.nodes.size ∧ r.node j' = j) ∧
       (∀ l, l < nn.net.lines.size → (nn.net.line l).reader ≠ x →
-        ∃ l', l' < (delNode { nn with net := net' } x).net.lines.size ∧ r.line l' = l) := by
+        ∃ l', l' < (delNode { nn with net := net' } x).net.lines.size ∧ r.line l' = l) ∧
+      (∀ j', r.node j' = nmN nn.net.nodes.size x j') := by
   have iv0 : RLInv nn x nn.net ((nn.net.node x).ins.filterMap id) id Ren.id := by
     refine ⟨w, (Emb.refl nn w.io (fun l hl => (w.back l hl).1)).weaken (fun _ _ h => absurd h id), hx, hio, ?_, ?_, ?_, houts,
       fun _ => rfl, fun l hl _ => ⟨l, hl, rfl⟩, fun l0 hl0 => by
@@ -155,7 +156,9 @@ theorem removeRoot_emb (nn : NNet) (w : WFm nn) (x : Nat) (hx : x < nn.net.nodes
     exact (pinsOnly_removeLines _ _ _ _ he).1.1
   refine ⟨w2, _, (iv.emb.trans e2).strengthen ?_, ?_, fun l hl hne => by
     obtain ⟨l1, hl1, e1⟩ := iv.lsurj l hl hne
-    exact ⟨l1, by rw [(delNode_sizes { nn with net := net' } x).2]; exact hl1, e1⟩⟩
+    exact ⟨l1, by rw [(delNode_sizes { nn with net := net' } x).2]; exact hl1, e1⟩, fun j' => by
+    show r'.node (nmN net'.nodes.size x j') = _
+    rw [iv.rnode, hsz]⟩
   · intro j hj hc
     rw [hs] at hj
     rcases hc with hc | hc
